@@ -1,7 +1,7 @@
 (** C20 — UDP and SCMP checksums verify and detect corruption.
     Property theorems only; the work is in Proofs/Checksum.v. *)
 From Coq Require Import List NArith Bool Lia ZifyBool ZifyN ZifyNat.
-From Scion Require Import Lib.Check Lib.Bytes Model.Checksum Proofs.Checksum.
+From Scion Require Import Lib.Check Lib.Bytes Model.Checksum Proofs.Checksum Model.ChecksumX Proofs.ChecksumX.
 Import ListNotations.
 Import Checksum.
 Local Open Scope N_scope.
@@ -138,6 +138,28 @@ Proof.
   exact (flip_oracle_model h l payload b region idx bit WH WL WP SM SER VF).
 Qed.
 Print Assumptions C20_oracle_holds_on_model.
+
+(** Region-free form (audit follow-up): on the bytes a sender wrote, flipping ANY single bit of ANY
+    byte of the upper layer - the two checksum bytes included - makes the verification sum
+    differ from 0xFFFF. *)
+Theorem C20_any_flip_detected : forall h l payload b p j,
+  wf_hdr h -> wf_l4 l -> wf_bytes payload -> small payload -> serialize h l payload = Ok b ->
+  (p < length b)%nat -> j < 8 ->
+  verify_sum h (N.of_nat (length b)) (flip_bit b p j) (proto_of l) <> Ok 65535.
+Proof.
+  intros h l payload b p j WH WL WP SM SER P J.
+  destruct (any_flip_detected h l payload b p j WH WL WP SM SER P J) as (s & -> & NE).
+  intros X. apply NE. now inversion X.
+Qed.
+Print Assumptions C20_any_flip_detected.
+
+(** The additional oracle clauses of [ChecksumX.check] (every bit of the checksum field, every bit
+    of the length word, flipped on the implementation's bytes) hold on the model. *)
+Theorem C20_extra_oracle_holds_on_model : forall h l payload b,
+  wf_hdr h -> wf_l4 l -> wf_bytes payload -> small payload -> serialize h l payload = Ok b ->
+  ChecksumX.extra_oracle h l 0 (N.of_nat (length b)) b = true.
+Proof. exact extra_oracle_model. Qed.
+Print Assumptions C20_extra_oracle_holds_on_model.
 
 (** Non-vacuity: a UDP datagram with an odd payload between an IPv4 and an IPv6 host. *)
 Example C20_example :
